@@ -1,0 +1,50 @@
+//go:build verif
+
+package rollout
+
+import (
+	"github.com/openkruise/rollouts/api/v1beta1"
+	"github.com/openkruise/rollouts/pkg/trafficrouting"
+	"github.com/openkruise/rollouts/pkg/util"
+	"k8s.io/apimachinery/pkg/runtime"
+	"k8s.io/client-go/tools/record"
+	"sigs.k8s.io/controller-runtime/pkg/client"
+	"sigs.k8s.io/controller-runtime/pkg/handler"
+)
+
+// NewVerifReconciler builds a RolloutReconciler exactly as SetupWithManager does, without a manager.
+func NewVerifReconciler(c client.Client, scheme *runtime.Scheme, rec record.EventRecorder) *RolloutReconciler {
+	r := &RolloutReconciler{Client: c, Scheme: scheme, Recorder: rec}
+	r.finder = util.NewControllerFinder(c)
+	r.trafficRoutingManager = trafficrouting.NewTrafficRoutingManager(c)
+	r.canaryManager = &canaryReleaseManager{Client: c, trafficRoutingManager: r.trafficRoutingManager, recorder: rec}
+	r.blueGreenManager = &blueGreenReleaseManager{Client: c, trafficRoutingManager: r.trafficRoutingManager, recorder: rec}
+	return r
+}
+
+// VerifSetGracePeriodSeconds overrides the package default grace period and returns the old value.
+func VerifSetGracePeriodSeconds(s int32) int32 {
+	old := defaultGracePeriodSeconds
+	defaultGracePeriodSeconds = s
+	return old
+}
+
+// VerifWorkloadEventHandler exposes the unexported workload watch handler.
+func VerifWorkloadEventHandler(r client.Reader, scheme *runtime.Scheme) handler.EventHandler {
+	return &enqueueRequestForWorkload{reader: r, scheme: scheme}
+}
+
+// VerifBatchReleaseEventHandler exposes the unexported BatchRelease watch handler.
+func VerifBatchReleaseEventHandler(r client.Reader) handler.EventHandler {
+	return &enqueueRequestForBatchRelease{reader: r}
+}
+
+// VerifNextCanaryTask exposes the finalising task order of the canary release manager.
+func VerifNextCanaryTask(reason string, cur v1beta1.FinalisingStepType) v1beta1.FinalisingStepType {
+	return nextCanaryTask(reason, cur)
+}
+
+// VerifNextBlueGreenTask exposes the finalising task order of the blue-green release manager.
+func VerifNextBlueGreenTask(reason string, cur v1beta1.FinalisingStepType) v1beta1.FinalisingStepType {
+	return nextBlueGreenTask(reason, cur)
+}
